@@ -1665,6 +1665,32 @@ func ledgerEpoch(c *Ctx, mode string, nBlocks int, epoch int) {
 					} else {
 						c.Count("c06:forged-block-rejected:" + lt.class)
 					}
+					// InsertBlock alone cannot tell WHY it refused (review H3: the appended tx was never executed, so its
+					// GasUsed is 0 and the header roots are the honest block's -- the block is refused even when no signature
+					// is looked at).  The decisive observation is the validator's own TxProcessor.Process on the forged tx
+					// list over the parent's state: the honest txs carry their real gasUsed and pass, and the appended one
+					// must be REFUSED (ErrInvalidTxInBlock); "gas used not equal" means Process executed it.
+					am := account.NewManager(parent.Hash(), n.DB)
+					proc := transaction.NewTxProcessor(keyAddr(n.W.FounderKey), nodeChainID, parentLoader{n}, am, n.DB, n.DM)
+					res := Safe(func() string {
+						var ftxs types.Transactions
+						for _, x := range fb.Txs {
+							ftxs = append(ftxs, cloneTx(x)) // (Transaction.Clone dereferences a nil GasPayer: tamper class gasPayer-dropped)
+						}
+						_, e := proc.Process(fb.Header, ftxs)
+						if e == nil {
+							return "executed"
+						}
+						if e == transaction.ErrInvalidTxInBlock {
+							return "refused"
+						}
+						return "executed(" + e.Error() + ")"
+					})
+					if res != "refused" {
+						c.Fail("c06/unauthorised-executed-by-validator/forged-block/"+lt.class, fmt.Sprintf("block %d: TxProcessor.Process over the honest txs + a tx the miner path refused as unauthorised (class %s): %s", b.Height(), lt.class, res), nil)
+					} else {
+						c.Count("c06:forged-tx-refused-by-process:" + lt.class)
+					}
 					break
 				}
 			}
